@@ -9,6 +9,7 @@ From WG Require Import BV.RefSel.
 From WG Require Import BV.Bits.
 From WG Require Import Par.Splice.
 From WG Require Import Flags.Props.
+From WG Require Import Algo.Llp.
 
 Extraction Language OCaml.
 
@@ -56,4 +57,17 @@ Extraction "model.ml"
   representable
   java_from_props
   version
+  llp_combine
+  llp_combine_labels
+  labels_to_ranks
+  invert_permutation
+  permute_graph
+  lp_final
+  check_lt
+  check_perm
+  check_dense
+  check_refinement
+  check_monotone
+  check_inverse
+  check_iso
 .
